@@ -45,7 +45,7 @@ def handle (toks : List String) : Option String :=
     let p ← Hex.toBytes p
     pure (tok d p)
   | ["tokconst"] =>
-    pure s!"ids={Hex.ofBytes Gen.Token.TOKEN_ID},{Hex.ofBytes Gen.Token.TOKEN_2022_ID} acc={Gen.Token.SPL_TOKEN_ACCOUNT_LENGTH} mint={Gen.Token.SPL_TOKEN_MINT_LENGTH}"
+    pure s!"ids={Hex.ofBytes Gen.Token.TOKEN_ID},{Hex.ofBytes Gen.Token.TOKEN_2022_ID} acc={Gen.Token.SPL_TOKEN_ACCOUNT_LENGTH} mint={Gen.Token.SPL_TOKEN_MINT_LENGTH} native={Hex.ofBytes Gen.Token.NATIVE_MINT_ID}:{Hex.ofBytes Gen.Token.NATIVE_MINT_ACCOUNT_DATA}"
   | ["tokref", d] => do
     let d ← Hex.toBytes d
     pure (tokref d)
